@@ -255,16 +255,21 @@ func lpString(s string) []byte {
 
 // opnFrame builds an unsecured OpenSecureChannel request chunk.
 func opnFrame(seq, reqID uint32) []byte {
+	return opnFrameWith(ua.SecurityPolicyURINone, ua.MessageSecurityModeNone, seq, reqID)
+}
+
+// opnFrameWith builds an unsecured OpenSecureChannel request chunk that names any policy URI and mode.
+func opnFrameWith(policyURI string, mode ua.MessageSecurityMode, seq, reqID uint32) []byte {
 	body, err := ua.Encode(&ua.OpenSecureChannelRequest{
 		RequestHeader:     &ua.RequestHeader{AuthenticationToken: ua.NewTwoByteNodeID(0), Timestamp: time.Now(), RequestHandle: reqID, AdditionalHeader: ua.NewExtensionObject(nil)},
 		RequestType:       ua.SecurityTokenRequestTypeIssue,
-		SecurityMode:      ua.MessageSecurityModeNone,
+		SecurityMode:      mode,
 		RequestedLifetime: 3600000,
 	})
 	if err != nil {
 		panic(err)
 	}
-	rest := lpString(ua.SecurityPolicyURINone)
+	rest := lpString(policyURI)
 	rest = append(rest, 0xff, 0xff, 0xff, 0xff, 0xff, 0xff, 0xff, 0xff)
 	rest = binary.LittleEndian.AppendUint32(rest, seq)
 	rest = binary.LittleEndian.AppendUint32(rest, reqID)
